@@ -29,9 +29,37 @@ use std::sync::atomic::{AtomicU64, AtomicUsize, Ordering};
 use std::sync::{Arc, Mutex, RwLock};
 
 const TY: &str = "N";
-const NAMES: [&str; 4] = ["A", "B", "C", "D"];
-/// never stored; appears only as a query argument
+const NAMES: [&str; 5] = ["A", "B", "C", "D", "P"];
+/// index of `P`: a uid that is never stored and occurs only as a (dangling) parent
+const P_IDX: usize = 4;
+/// never stored, never a parent; appears only as a query argument
 const GHOST: &str = "Z";
+
+/// shape of the universe: uids 0..n can be stored; parents range over them (self included)
+/// and, when `extra`, over the dangling-only uid P
+#[derive(Clone, Copy, Debug, PartialEq, Eq)]
+pub struct Cfg {
+    n: usize,
+    extra: bool,
+}
+
+impl Cfg {
+    fn parent_bits(&self) -> Vec<usize> {
+        let mut v: Vec<usize> = (0..self.n).collect();
+        if self.extra {
+            v.push(P_IDX);
+        }
+        v
+    }
+    /// every parent set: all subsets of the parent candidates, as bitmasks over NAMES
+    fn masks(&self) -> Vec<u8> {
+        let bits = self.parent_bits();
+        (0..(1u32 << bits.len())).map(|c| bits.iter().enumerate().filter(|(k, _)| c & (1 << k) != 0).fold(0u8, |m, (_, b)| m | (1 << b))).collect()
+    }
+    fn json(&self) -> J {
+        json!({"n": self.n, "extra_dangling_parent": self.extra})
+    }
+}
 
 fn uid(i: usize) -> Uid {
     Uid::new(TY, NAMES[i])
@@ -131,19 +159,19 @@ impl Op {
 }
 
 fn mask_names(m: u8) -> Vec<&'static str> {
-    (0..4).filter(|i| m & (1 << i) != 0).map(|i| NAMES[i]).collect()
+    (0..NAMES.len()).filter(|i| m & (1 << i) != 0).map(|i| NAMES[i]).collect()
 }
 
 fn mask_set(m: u8) -> BTreeSet<Uid> {
-    (0..4).filter(|i| m & (1 << i) != 0).map(uid).collect()
+    (0..NAMES.len()).filter(|i| m & (1 << i) != 0).map(uid).collect()
 }
 
-/// every entity over n uids: uid x every subset of the universe (self included) as parents
-fn all_specs(n: usize) -> Vec<Spec> {
+/// every entity: storable uid x every subset of the parent candidates (self included)
+fn all_specs(cfg: Cfg) -> Vec<Spec> {
     let mut v = Vec::new();
-    for u in 0..n {
-        for m in 0..(1u16 << n) {
-            v.push(Spec { u: u as u8, parents: m as u8 });
+    for u in 0..cfg.n {
+        for m in cfg.masks() {
+            v.push(Spec { u: u as u8, parents: m });
         }
     }
     v
@@ -151,8 +179,9 @@ fn all_specs(n: usize) -> Vec<Spec> {
 
 /// the operation alphabet of the BFS: batches of size 1 and ORDERED size 2 (so: same uid twice
 /// with identical / different parents, both orders of two different uids)
-fn all_ops(n: usize) -> Vec<Op> {
-    let specs = all_specs(n);
+fn all_ops(cfg: Cfg) -> Vec<Op> {
+    let n = cfg.n;
+    let specs = all_specs(cfg);
     let mut batches: Vec<Vec<Spec>> = specs.iter().map(|s| vec![*s]).collect();
     for a in &specs {
         for b in &specs {
@@ -256,7 +285,7 @@ fn model_json(m: &Store) -> J {
 // ---------------------------------------------------------------------------------------------
 
 pub struct World {
-    n: usize,
+    cfg: Cfg,
     /// universe + ghost (query arguments)
     q_uids: Vec<Uid>,
     q_cuids: Vec<cedar_policy::EntityUid>,
@@ -270,16 +299,22 @@ pub struct World {
 }
 
 impl World {
-    pub fn new(n: usize) -> World {
+    pub fn new(cfg: Cfg) -> World {
+        let n = cfg.n;
+        // query arguments: the storable uids first (so that index = uid index), then P, then Z
         let mut q_uids: Vec<Uid> = (0..n).map(uid).collect();
+        if cfg.extra {
+            q_uids.push(uid(P_IDX));
+        }
         q_uids.push(Uid::new(TY, GHOST));
         let q_cuids: Vec<cedar_policy::EntityUid> = q_uids.iter().map(c_uid).collect();
+        let all_cuids: Vec<cedar_policy::EntityUid> = (0..NAMES.len()).map(|i| c_uid(&uid(i))).collect();
         let mut ents = Vec::new();
         for u in 0..n {
             let mut row = Vec::new();
-            for m in 0..(1u16 << n) {
-                let parents: HashSet<cedar_policy::EntityUid> = (0..n).filter(|i| m & (1 << i) != 0).map(|i| q_cuids[i].clone()).collect();
-                row.push(cedar_policy::Entity::new_no_attrs(q_cuids[u].clone(), parents));
+            for m in 0..(1u16 << NAMES.len()) {
+                let parents: HashSet<cedar_policy::EntityUid> = (0..NAMES.len()).filter(|i| m & (1 << i) != 0).map(|i| all_cuids[i].clone()).collect();
+                row.push(cedar_policy::Entity::new_no_attrs(all_cuids[u].clone(), parents));
             }
             ents.push(row);
         }
@@ -290,7 +325,7 @@ impl World {
         let act = c_uid(&Uid::new("Action", "act"));
         let res = c_uid(&Uid::new(TY, "R"));
         let reqs = q_cuids.iter().map(|x| cedar_policy::Request::new(x.clone(), act.clone(), res.clone(), cedar_policy::Context::empty(), None).expect("request")).collect();
-        World { n, q_uids, q_cuids, ents, psets, reqs, auth: cedar_policy::Authorizer::new() }
+        World { cfg, q_uids, q_cuids, ents, psets, reqs, auth: cedar_policy::Authorizer::new() }
     }
 
     fn entity(&self, s: &Spec) -> cedar_policy::Entity {
@@ -514,7 +549,6 @@ pub struct StepOut {
 fn step(w: &World, model: &Store, real: &cedar_policy::Entities, op: &Op) -> StepOut {
     let site = op.site();
     let pred = model_step(model, op);
-    let cyclic = pred.next.has_cycle();
     let res = impl_step(real.clone(), op, w);
     let mut bad = Bad::new();
     let kind = op.kind();
@@ -523,7 +557,7 @@ fn step(w: &World, model: &Store, real: &cedar_policy::Entities, op: &Op) -> Ste
             let class;
             if pred.unpredicted {
                 class = format!("{kind}:re-add:err-{}", err_class(&e));
-            } else if cyclic {
+            } else if pred.next.has_cycle() {
                 class = format!("{kind}:cycle:err-{}", err_class(&e));
             } else {
                 class = format!("{kind}:UNEXPECTED-err-{}", err_class(&e));
@@ -533,7 +567,7 @@ fn step(w: &World, model: &Store, real: &cedar_policy::Entities, op: &Op) -> Ste
         }
         Ok(new) => {
             let mut diverged = false;
-            if cyclic {
+            if pred.next.has_cycle() {
                 diverged = true;
                 bad.push((format!("{site}:cycle-accepted"), format!("{} on store {} was accepted although the resulting parent graph {} has a cycle", op.to_json(), model_json(model), model_json(&pred.next))));
             }
@@ -636,7 +670,7 @@ fn shrink(w: &World, mut ops: Vec<Op>, fp: &str) -> Vec<Op> {
         for i in 0..ops.len() {
             if let Op::From(b) | Op::Add(b) | Op::Upsert(b) = &ops[i] {
                 for k in 0..b.len() {
-                    for bit in 0..4 {
+                    for bit in 0..NAMES.len() {
                         if b[k].parents & (1 << bit) != 0 {
                             let mut c = ops.clone();
                             if let Op::From(b) | Op::Add(b) | Op::Upsert(b) = &mut c[i] {
@@ -655,8 +689,8 @@ fn shrink(w: &World, mut ops: Vec<Op>, fp: &str) -> Vec<Op> {
     }
 }
 
-fn history_json(n: usize, ops: &[Op]) -> J {
-    json!({"kind": "history", "n": n, "start": "Entities::empty()", "ops": ops.iter().map(Op::to_json).collect::<Vec<_>>()})
+fn history_json(cfg: Cfg, ops: &[Op]) -> J {
+    json!({"kind": "history", "universe": cfg.json(), "start": "Entities::empty()", "ops": ops.iter().map(Op::to_json).collect::<Vec<_>>()})
 }
 
 // ---------------------------------------------------------------------------------------------
@@ -748,7 +782,7 @@ impl Mc {
         self.sh.report(fp, what, || {
             let ops = self.hist_ops(hist);
             let small = shrink(&self.w, ops.clone(), &fp2);
-            let mut j = history_json(self.w.n, &small);
+            let mut j = history_json(self.w.cfg, &small);
             j["found_as"] = json!(ops.iter().map(Op::to_json).collect::<Vec<_>>());
             j["after_history"] = json!(run_history(&self.w, &small, false).into_iter().filter(|(f, _)| *f == fp2).map(|(_, w)| w).collect::<Vec<_>>());
             j
@@ -783,7 +817,7 @@ impl Model for Mc {
         let op = &self.ops[a as usize];
         let mut hist = s.hist.clone();
         hist.push(a);
-        let out = self.sh.ctx.guard("C04 transition", || history_json(self.w.n, &self.hist_ops(&hist)), || step(&self.w, &s.model, &s.real, op))?;
+        let out = self.sh.ctx.guard("C04 transition", || history_json(self.w.cfg, &self.hist_ops(&hist)), || step(&self.w, &s.model, &s.real, op))?;
         let key = hash_of(&(&s.model, a));
         self.sh.local(|l| {
             l.case(key, &out.class, out.nontrivial);
@@ -803,7 +837,7 @@ impl Model for Mc {
                 return false;
             }
             let mut bad = Bad::new();
-            let r = m.sh.ctx.guard("C04 state queries", || history_json(m.w.n, &m.hist_ops(&s.hist)), || state_checks(&m.w, &s.real, &s.canon, &s.model, &mut bad));
+            let r = m.sh.ctx.guard("C04 state queries", || history_json(m.w.cfg, &m.hist_ops(&s.hist)), || state_checks(&m.w, &s.real, &s.canon, &s.model, &mut bad));
             m.sh.states_checked.fetch_add(1, Ordering::Relaxed);
             if let Some(c) = r {
                 m.sh.query_calls.fetch_add(c, Ordering::Relaxed);
@@ -818,23 +852,38 @@ impl Model for Mc {
 
 /// number of acyclic stores over n uids (every stored subset, parents anywhere in the universe),
 /// counted by brute force: the BFS must reach exactly these
-fn count_acyclic_stores(n: usize) -> u64 {
-    let mut total = 0u64;
+fn count_acyclic_stores(cfg: Cfg) -> u64 {
+    all_graphs(cfg)
+        .iter()
+        .filter(|g| {
+            let mut s = Store::default();
+            for sp in g.iter() {
+                s.ents.insert(uid(sp.u as usize), ent_of(sp.parents));
+            }
+            !s.has_cycle()
+        })
+        .count() as u64
+}
+
+/// every parent graph: every stored subset x every assignment of a parent set to each member
+fn all_graphs(cfg: Cfg) -> Vec<Vec<Spec>> {
+    let n = cfg.n;
+    let masks = cfg.masks();
+    let mut graphs: Vec<Vec<Spec>> = Vec::new();
     for stored in 0..(1u32 << n) {
         let members: Vec<usize> = (0..n).filter(|i| stored & (1 << i) != 0).collect();
-        let combos = 1u64 << (n * members.len());
+        let combos = (masks.len() as u64).pow(members.len() as u32);
         for c in 0..combos {
-            let mut s = Store::default();
-            for (k, u) in members.iter().enumerate() {
-                let mask = ((c >> (k * n)) & ((1 << n) - 1)) as u8;
-                s.ents.insert(uid(*u), ent_of(mask));
+            let mut rest = c;
+            let mut g = Vec::new();
+            for u in &members {
+                g.push(Spec { u: *u as u8, parents: masks[(rest % masks.len() as u64) as usize] });
+                rest /= masks.len() as u64;
             }
-            if !s.has_cycle() {
-                total += 1;
-            }
+            graphs.push(g);
         }
     }
-    total
+    graphs
 }
 
 // ---------------------------------------------------------------------------------------------
@@ -842,15 +891,8 @@ fn count_acyclic_stores(n: usize) -> u64 {
 // ---------------------------------------------------------------------------------------------
 
 fn from_sweep(sh: &Shared, w: &World) {
-    let n = w.n;
-    let mut graphs: Vec<Vec<Spec>> = Vec::new();
-    for stored in 0..(1u32 << n) {
-        let members: Vec<usize> = (0..n).filter(|i| stored & (1 << i) != 0).collect();
-        let combos = 1u64 << (n * members.len());
-        for c in 0..combos {
-            graphs.push(members.iter().enumerate().map(|(k, u)| Spec { u: *u as u8, parents: ((c >> (k * n)) & ((1 << n) - 1)) as u8 }).collect());
-        }
-    }
+    let cfg = w.cfg;
+    let graphs = all_graphs(w.cfg);
     let total = graphs.len();
     sh.ctx.set_info("from_entities_sweep_graphs", json!(total));
     graphs.par_chunks(64).for_each(|chunk| {
@@ -861,14 +903,14 @@ fn from_sweep(sh: &Shared, w: &World) {
                 let batch: Vec<Spec> = perm.iter().map(|i| g[*i]).collect();
                 let op = Op::From(batch);
                 let empty = cedar_policy::Entities::empty();
-                let Some(out) = sh.ctx.guard("C04 from_entities sweep", || history_json(n, &[op.clone()]), || step(w, &Store::default(), &empty, &op)) else { continue };
+                let Some(out) = sh.ctx.guard("C04 from_entities sweep", || history_json(cfg, &[op.clone()]), || step(w, &Store::default(), &empty, &op)) else { continue };
                 l.case(hash_of(&op), &format!("sweep:{}", out.class), !g.is_empty());
                 l.transitions += 1;
                 qc += out.query_calls;
                 let mut bad = out.bad;
                 // the Authorizer route once per graph (first insertion order)
                 if let (0, Some((m, c, r, false))) = (pi, &out.next) {
-                    let got = sh.ctx.guard("C04 from_entities sweep queries", || history_json(n, &[op.clone()]), || {
+                    let got = sh.ctx.guard("C04 from_entities sweep queries", || history_json(cfg, &[op.clone()]), || {
                         let mut b = Bad::new();
                         let k = check_queries(w, r, m, true, &mut b);
                         let _ = c;
@@ -884,7 +926,7 @@ fn from_sweep(sh: &Shared, w: &World) {
                     let ops = vec![op.clone()];
                     sh.report(fp, what, || {
                         let small = shrink(w, ops.clone(), &fp2);
-                        let mut j = history_json(n, &small);
+                        let mut j = history_json(cfg, &small);
                         j["found_as"] = json!(ops.iter().map(Op::to_json).collect::<Vec<_>>());
                         j
                     });
@@ -900,7 +942,7 @@ fn from_sweep(sh: &Shared, w: &World) {
 // part 3: core-level TCComputation::EnforceAlreadyComputed on hand-built stores (N = 3)
 // ---------------------------------------------------------------------------------------------
 
-/// edges i -> j as (i, j); self edges only in the thorough tier
+/// edges i -> j as (i, j): the 6 proper edges first, then the 3 self edges
 fn enforce_edges(with_self: bool) -> Vec<(usize, usize)> {
     let mut v = Vec::new();
     for i in 0..3 {
@@ -1019,8 +1061,8 @@ fn enforce_class(edges: &[(usize, usize)], pmask: u32, imask: u32) -> (&'static 
     (class, (pmask | imask) != 0)
 }
 
-fn enforce_sweep(sh: &Shared, tier: Tier) {
-    let edges = enforce_edges(tier == Tier::Thorough);
+fn enforce_sweep(sh: &Shared) {
+    let edges = enforce_edges(true);
     let k = edges.len();
     sh.ctx.set_info("enforce_edge_bits", json!(k));
     (0..(1u32 << k)).into_par_iter().for_each(|pmask| {
@@ -1061,7 +1103,8 @@ fn replay(path: &str) -> i32 {
     quiet_panics();
     let bad: Bad = match case["kind"].as_str() {
         Some("history") => {
-            let n = case["n"].as_u64().unwrap_or(3) as usize;
+            let n = case["universe"]["n"].as_u64().unwrap_or(3) as usize;
+            let extra = case["universe"]["extra_dangling_parent"].as_bool().unwrap_or(false);
             let Some(ops) = case["ops"].as_array().and_then(|a| a.iter().map(Op::from_json).collect::<Option<Vec<Op>>>()) else {
                 eprintln!("replay file holds no readable history");
                 return 2;
@@ -1070,8 +1113,8 @@ fn replay(path: &str) -> i32 {
                 eprintln!("bad universe size in replay file");
                 return 2;
             }
-            println!("replaying history over {n} uids (+ query-only {GHOST}), starting from Entities::empty():");
-            let w = World::new(n);
+            println!("replaying history over {n} storable uids{} (+ query-only {GHOST}), starting from Entities::empty():", if extra { " + dangling-only parent P" } else { "" });
+            let w = World::new(Cfg { n, extra });
             run_history(&w, &ops, true)
         }
         Some("enforce") => {
@@ -1115,12 +1158,15 @@ pub fn run(tier: Tier, replay_file: Option<&str>) -> i32 {
         return replay(p);
     }
     quiet_panics();
-    let n = tier.pick(3, 4);
+    // quick: 3 storable uids + one dangling-only parent (plays the part of an absent 4th uid, so
+    // that "an ancestor of the replaced/removed entity" exists below a 3-chain); thorough: 4 uids
+    let cfg = tier.pick(Cfg { n: 3, extra: true }, Cfg { n: 4, extra: false });
+    let n = cfg.n;
     let ctx = Ctx::new("C04", tier);
     let seed = ctx.seed;
     let sh = Arc::new(Shared::new(ctx));
-    let w = Arc::new(World::new(n));
-    let ops = Arc::new(all_ops(n));
+    let w = Arc::new(World::new(cfg));
+    let ops = Arc::new(all_ops(cfg));
     let mut order: Vec<u32> = (0..ops.len() as u32).collect();
     let rot = (seed % ops.len() as u64) as usize;
     order.rotate_left(rot);
@@ -1145,7 +1191,7 @@ pub fn run(tier: Tier, replay_file: Option<&str>) -> i32 {
     let bfs_transitions = sh.ctx.transitions.load(Ordering::Relaxed);
     sh.ctx.states.store(unique, Ordering::Relaxed);
     sh.ctx.max_depth.store(depth, Ordering::Relaxed);
-    let expected_states = count_acyclic_stores(n);
+    let expected_states = count_acyclic_stores(cfg);
     sh.ctx.set_info(
         "bfs",
         json!({"unique_states": unique, "states_generated_incl_repeats": generated, "transitions": bfs_transitions, "max_depth": depth, "threads": threads,
@@ -1158,7 +1204,7 @@ pub fn run(tier: Tier, replay_file: Option<&str>) -> i32 {
     // part 2 and 3
     if !stopped_early {
         from_sweep(&sh, &w);
-        enforce_sweep(&sh, tier);
+        enforce_sweep(&sh);
     }
     sh.ctx.set_info("query_calls_compared", json!(sh.query_calls.load(Ordering::Relaxed)));
     sh.ctx.set_info("repeat_occurrences_of_reported_fingerprints", json!(sh.repeats.load(Ordering::Relaxed)));
@@ -1177,14 +1223,15 @@ pub fn run(tier: Tier, replay_file: Option<&str>) -> i32 {
         "case = (state, op) transition of the BFS, or one from_entities call of the all-graphs sweep, or one EnforceAlreadyComputed store; class = API entry point x oracle outcome (ok-changed / ok-noop / cycle -> err / re-add of a present uid (unpredicted) -> ok|err); non-trivial = the op changes the model store or is rejected (sweeps: the graph / edge set is not empty)",
         json!({
             "tier": tier.name(),
-            "uids": n,
+            "storable_uids": n,
+            "dangling_only_parent_uid": if cfg.extra { J::String("P".into()) } else { J::Null },
             "query_only_uid": GHOST,
-            "entity_alphabet": "uid x every subset of the universe (self included) as direct parents",
+            "entity_alphabet": "storable uid x every subset of (storable uids incl. itself + dangling-only P if any) as direct parents",
             "ops": "from_entities (enabled when the store is empty), add_entities, upsert_entities with every batch of size 1 and every ORDERED batch of size 2; remove_entities with every uid and every ordered pair of uids",
             "ops_per_state": ops.len(),
             "depth": "unbounded (finite state space, BFS to fixpoint)",
             "from_entities_sweep": "every stored subset x every parent assignment (self-parents included: cycles of every length <= n) x every insertion order",
-            "enforce_sweep": if tier == Tier::Thorough { "3 entities, all 2^9 parent-edge sets x 2^9 claimed indirect-edge sets (self edges included)" } else { "3 entities, all 2^6 parent-edge sets x 2^6 claimed indirect-edge sets" },
+            "enforce_sweep": "3 entities, all 2^9 parent-edge sets x 2^9 claimed indirect-edge sets (the 6 proper edges and the 3 self edges)",
             "queries": "after every accepted op: ancestors(x), is_ancestor_of(y,x) for all ordered pairs over universe + Z; in every distinct state additionally `permit(principal in Y, ..)` through Authorizer for all pairs and deep_eq against from_entities of the model records in both orders",
         }),
         &[
